@@ -1,9 +1,12 @@
 /-
   Engine `pretty` (C10).  Op line (see harness/pretty.cpp for the full description):
     A|M <lossless> <prec> <linelength> <compress> <cols0> <addr-hex|-> <arg>*
+        <lossless> = N: opt == NULL, i.e. `default_print_options` (prec, linelength, compress ignored);
+        mode A with cols0 > 0: the buffer points cols0 bytes into the caller's line ((cols0-1) x 'p' and a blank),
+        extra output token `B <byte at buffer[-1] after printing>`; argument token `R<num>:<hasdelta>` = range header
     T|TM <text-hex>                      count + scan of a given text
     X a32|a64|f32|f64|sf32|sf64|si|tm …  the libc sub-models alone
-  Output line: `P <ret> <text-hex> C <count> S <rd> <n> <cell>* [A <addr-hex>] E <eq>`
+  Output line: `P <ret> <text-hex> [B <dec>] C <count> S <rd> <n> <cell>* [A <addr-hex>] E <eq>`
   (scanned booleans are printed with their payload: `T1`, `F0`)
 -/
 import RtoscModel.Pretty.Check
@@ -28,6 +31,12 @@ def parseArgs : Nat → List String → Option (List Cell × List String)
   | fuel + 1, tok :: rest =>
     match tok.toList with
     | ']' :: [] => some ([], tok :: rest)
+    | 'R' :: spec => do
+      let (num, hd) ← match (String.ofList spec).splitOn ":" with
+        | [a, b] => (do let x ← a.toInt?; let y ← b.toInt?; pure (x, y) : Option (Int × Int))
+        | _ => none
+      let (more, rest1) ← parseArgs fuel rest
+      some (Cell.rep num hd :: more, rest1)
     | '[' :: ty => do
       let t ← (String.ofList ty).toNat?
       let (inner, rest1) ← parseArgs fuel rest
@@ -153,16 +162,24 @@ def step (line : String) : String :=
     else "bad-op"
   | m :: l :: p :: ll :: c :: k :: a :: args =>
     if m ≠ "A" ∧ m ≠ "M" then "bad-op" else
-    match l.toNat?, p.toNat?, ll.toInt?, c.toNat?, k.toInt?, ofHex a, parseArgs (args.length + 2) args with
-    | some l, some p, some ll, some c, some k, some addr, some (cells, []) =>
-      let opt : POpt := { lossless := l ≠ 0, prec := p, linelength := ll, compress := c ≠ 0 }
+    match (if l = "N" then some 1 else l.toNat?), p.toNat?, ll.toInt?, c.toNat?, k.toInt?, ofHex a,
+        parseArgs (args.length + 2) args with
+    | some lv, some p, some ll, some c, some k, some addr, some (cells, []) =>
+      if k < 0 ∨ k > 4096 then "bad-op" else
+      -- opt == NULL: `if(!opt) opt = default_print_options;`
+      let opt : POpt := if l = "N" then defaultOpt
+        else { lossless := lv ≠ 0, prec := p, linelength := ll, compress := c ≠ 0 }
+      -- mode A with cols_used > 0: the caller's line so far stands in front of the buffer
+      let pre : Nat := if m = "M" then 0 else k.toNat
+      let line0 : Bytes := if pre = 0 then [] else List.replicate (pre - 1) 112 ++ [32]
       let printed : Pretty.Res (PSt × Nat) :=
-        if m = "M" then printMessage opt addr cells k else printArgVals opt cells { out := [], cols := k }
+        if m = "M" then printMessage opt addr cells k else printArgVals opt cells { out := line0, cols := k }
       match printed with
       | .error e => "P " ++ showErr e
       | .ok (st, ret) =>
-        let text := st.out.takeWhile (· ≠ 0)
-        s!"P {ret} {toHex text} " ++ countScan text (m = "M") (some cells)
+        let text := (st.out.drop pre).takeWhile (· ≠ 0)
+        let b := if pre = 0 then "" else s!"B {(st.out.getD (pre - 1) 0).toNat} "
+        s!"P {ret} {toHex text} " ++ b ++ countScan text (m = "M") (some cells)
     | _, _, _, _, _, _, _ => "bad-op"
   | _ => "bad-op"
 
